@@ -137,6 +137,8 @@ class G:
             if d(st.integers(0, 3)) == 0:
                 opts["start"] = d(st.integers(1, 2))       # _range(start, stop, max=...)
                 m = max(m, opts["start"])
+            if "start" not in opts and d(st.integers(0, 4)) == 0:
+                opts["pubstop"] = d(st.integers(0, 3))        # a PUBLIC bound: _range(3), no max
             if d(st.integers(0, 2)) == 0:
                 opts["share"] = True
                 self.shared.append((fid, m))
@@ -166,7 +168,7 @@ def draw_case(draw):
     def fill(stmts):
         for s in stmts:
             if s[0] == "for":
-                if not (s[1] or {}).get("reuse"):
+                if not (s[1] or {}).get("reuse") and "pubstop" not in (s[1] or {}):
                     lo = (s[1] or {}).get("start", 0)          # stop >= start: the precondition of _range(start, stop)
                     va["stops"][str(s[8])] = draw(st.integers(lo, s[2]))
                     vb["stops"][str(s[8])] = draw(st.integers(lo, s[2]))
@@ -350,7 +352,9 @@ def _render(case, obl):
             _, opts, m, lv, body, chk, brk, pos, cid = s
             opts = opts or {}
             start = "%d, " % opts["start"] if "start" in opts else ""
-            if obl:
+            if "pubstop" in opts:
+                rng = ("_range(%d%s)" % (opts["pubstop"], CX2)) if obl else "range(%d)" % opts["pubstop"]
+            elif obl:
                 rng = "_range(%ss%d, max=%d%s%s)" % (start, cid, m, ", checkstopmax=True" if chk else "", CX2)
             else:
                 rng = "range(%ss%d)" % (start, cid)
